@@ -1,5 +1,5 @@
 //@ tu: libxcm/tp/tls/xcm_tp_utls.c
-//@ flags: --max-field-sensitivity-array-size 1024 --object-bits 10
+//@ flags: --max-field-sensitivity-array-size 700 --object-bits 10
 //@ enforce: utls_server
 //@ replace: xcm_addr_parse_utls xcm_addr_make_tls xcm_local_addr xcm_addr_parse_tls xcm_addr_ux_make xcm_tp_socket_server xcm_tp_socket_close xcm_tp_socket_destroy
 //@ pre-unwind: strlen.0:5
